@@ -5384,9 +5384,11 @@ class Parameterized(metaclass=ParameterizedMetaclass):
 
         self._param__private.initialized = True
 
+        # (recorded before the on_init methods run: they may assign to a
+        # linked parameter, or make further links)
+        self._param__private.refs = refs
         self.param._setup_refs(deps)
         self.param._update_deps(init=True)
-        self._param__private.refs = refs
 
     @property
     def param(self) -> Parameters:
